@@ -27,6 +27,9 @@ EXTRA_PROGRAMS = [
     "from t | aggregate {x = min a} | aggregate {n = count x}",
     "from t | window rows:-2..2 (sort a | derive {m = max b})",
     "from t | derive {x = a ** 2 // 3 % 4 ?? 5}",
+    "from t | as {z = 1}",
+    "from t | *",
+    "from t | join side:{z = 1} u (==a)",
 ]
 
 TOKEN_RE = re.compile(r"[A-Za-z_][A-Za-z_0-9]*|\d+(?:\.\d+)?|\s+|==|!=|>=|<=|~=|&&|\|\||\?\?|//|\*\*|->|=>|\.\.|.", re.S)
@@ -291,7 +294,10 @@ def json_mutants(rng, doc, k):
                 continue
         except (KeyError, IndexError, TypeError):
             continue
-        out.append(("json:" + op, json.dumps(d)))
+        fam = "json:" + op
+        if op in ("int", "dupkey"):
+            fam = "json:int:" + ("lit" if "Literal" in p else "id")
+        out.append((fam, json.dumps(d)))
     return out
 
 
